@@ -1,4 +1,5 @@
 import H5V.Lemmas.HtmlTBSafeRules0
+import H5V.Lemmas.HtmlTBSafeTable
 /-!
 # Tree-builder safety, part 11: foreign content, `process_to_completion`, `process_token`, `end`
 
@@ -151,10 +152,25 @@ theorem sat_foreignEndTagLoop (hall : AllSpec) {tag : Tag} : ∀ (n : Nat) (firs
   intro n
   induction n with
   | zero =>
-    intro first s ht _ _ _ _
+    intro first s ht hbl hlt _ _
     unfold foreignEndTagLoop
-    refine sat_pure ?_
-    exact StepPost.of_same ht (Same.refl s) rfl trivial
+    refine sat_getS_bind ?_
+    have hget : s.openElems[0]? = some s.openElems[0] := List.getElem?_eq_getElem hlt
+    rw [hget]
+    dsimp only
+    refine Sat.bind (Q := fun nd s1 => s.openElems[0] = nd ∧ s = s1) (sat_pure ⟨rfl, rfl⟩) ?_
+    rintro node s0 ⟨rfl, rfl⟩
+    have hmem : s.openElems[0] ∈ s.openElems := List.getElem_mem hlt
+    refine (sat_elemName (ht.h.open_el _ hmem)).bind ?_
+    rintro nn s1 ⟨rfl, hq1⟩
+    have ht1 : TI s1 := ht.of_qf hq1
+    by_cases h1 : (!first && (nm s.dom s.openElems[0]).ns == nsHtml) = true
+    · rw [if_pos h1]
+      refine sat_getS_bind ?_
+      exact hall (.tag tag) s1 ht1 (fun h => absurd h (bodyLike_ne_text (by rw [hq1.mode]; exact hbl)))
+    · rw [if_neg h1]
+      refine sat_pure ?_
+      exact StepPost.of_qf ht hq1 rfl trivial
   | succ n ih =>
     intro first s ht hbl hlt habove hfirst
     have hpre : preRoot s.mode = false := by
@@ -601,11 +617,29 @@ theorem sat_processToken (hall : AllSpec) (hfuel : al.fuel) {token : TokToken} {
         cases hm : ({ s1 with ignoreLf := false } : State).mode <;> first | rfl | exact absurd hm hmi
       rw [hmi']
       simp only [Bool.false_eq_true, if_false]
-      refine sat_parseError.bind ?_
-      intro _ s3 hq3
-      refine Sat.bind (Q := fun tb s4 => tb = none ∧ TI s4) (sat_pure ⟨rfl, ht2.of_qf hq3⟩) ?_
-      rintro tb s4 ⟨rfl, ht4⟩
-      exact hfin none s4 ht4 (fun t h => by cases h)
+      refine sat_getS_bind ?_
+      have hrest : ∀ s3, TI s3 → Sat (parseError "DOCTYPE in body" >>= fun _ =>
+          (pure none : M (Option Token)) >>= fun tb => ptFinish tb) s3 (fun _ s' => TI s') := by
+        intro s3 ht3
+        refine sat_parseError.bind ?_
+        intro _ s4 hq4
+        refine Sat.bind (Q := fun tb s5 => tb = none ∧ TI s5) (sat_pure ⟨rfl, ht3.of_qf hq4⟩) ?_
+        rintro tb s5 ⟨rfl, ht5⟩
+        exact hfin none s5 ht5 (fun t h => by cases h)
+      by_cases hmt : ({ s1 with ignoreLf := false } : State).mode = .inTableText
+      · have hmt' : (({ s1 with ignoreLf := false } : State).mode == Mode.inTableText) = true := by
+          rw [hmt]; rfl
+        rw [if_pos hmt']
+        refine (sat_flushPendingTableText ht2 hmt).bind ?_
+        rintro m s3 ⟨hi3, hs3⟩
+        refine sat_setMode.bind ?_
+        rintro _ s4 rfl
+        exact hrest _ ⟨hi3.withMode m, hs3.withMode m⟩
+      · have hmt' : (({ s1 with ignoreLf := false } : State).mode == Mode.inTableText) = false := by
+          cases hm : ({ s1 with ignoreLf := false } : State).mode <;> first | rfl | exact absurd hm hmt
+        rw [hmt']
+        simp only [Bool.false_eq_true, if_false]
+        exact hrest _ ht2
   | tag t =>
     refine Sat.bind (Q := fun tb s4 => tb = some (.tag t) ∧ s4 = { s1 with ignoreLf := false }) (sat_pure ⟨rfl, rfl⟩) ?_
     rintro tb s4 ⟨rfl, rfl⟩
